@@ -10,19 +10,23 @@
             asn1c_emit_constraint_checking_code): the range handed over by
             libasn1fix/asn1fix_crange.c (Fix.Crange.range_union = _range_canonicalize of
             the union; EXCEPT is dropped there), the "MIN..MAX => nothing to check"
-            drop, the C type chosen by asn1c_type_fits_long, native_long_sign, the
-            unsigned-long shortcut, asn_INTEGER2long's "value too large", and
+            drop (single interval only), the C type chosen by asn1c_type_fits_long, native_long_sign,
+            asn_INTEGER2long's "value too large", and
             emit_range_comparison_code's or-of-ands with its natural_start/stop
             elisions;
           - the walkers SEQUENCE_constraint (members in order, first failure wins,
-            absent optional skipped, missing mandatory fails, and the `return` taken
-            at the first present member that has no checker of its own),
+            absent optional skipped, missing mandatory fails),
             CHOICE_constraint, SET_OF_constraint (every element);
           - where the SIZE of a SEQUENCE OF / SET OF is checked at all: only in the
             memb_*_constraint_N function of a member slot and in the checker generated
             for a type DEFINED AS A REFERENCE (`T2 ::= T1`); the descriptor of a type
             defined as `SEQUENCE (SIZE(..)) OF` itself carries the bare walker;
-          - _asn_i_ctfailcb's clamp of the message length.
+          - _asn_i_ctfailcb's clamp of the message length, and what it and vsnprintf store
+            into the caller's buffer ([ctfail]);
+          - the compiler flag -fwide-types ([w] = true): asn1c_type_fits_long and
+            native_long_sign lose their "lb >= 0, ub = MAX => unsigned long" case, every range
+            open on a side is held in an INTEGER_t, and emit_value_determination_code's
+            sign shortcut for (0..MAX) / (MIN..-1) compares the SIGN of the number.
    The algebra [cty] is this file's own (Rt/Types.v has single ranges only and no
    notion of "constraint written at the member"); [of_ty] translates Rt.Types.ty.
    Extensible constraints are outside the property: [of_ty] maps them to "no
@@ -130,22 +134,20 @@ Definition is_val (e : edge) : bool := match e with EV _ => true | _ => false en
 
 (* asn1c_type_fits_long on the (non-extensible, PER-visible) range: the C type of the value *)
 Inductive ikind := KLong | KULong | KWide.
-Definition fits_long (l r : edge) : ikind :=
-  if is_val l && (0 <=? edge_val l) && (edge_val l <=? two31m1) && is_max r then KULong
+(* w: -fwide-types *)
+Definition fits_long (w : bool) (l r : edge) : ikind :=
+  if is_val l && (0 <=? edge_val l) && (edge_val l <=? two31m1) && is_max r && negb w then KULong
   else if is_val l && (0 <=? edge_val l) && is_val r && (two31m1 <? edge_val r) && (edge_val r <=? two32m1) then KULong
   else if is_val l && ((edge_val l <? two31neg) || (two31m1 <? edge_val l)) then KWide
   else if is_val r && ((two31m1 <? edge_val r) || (edge_val r <? two31neg)) then KWide
+  else if negb (is_val l && is_val r) && w then KWide           (* "if the range is open, fits only unless -fwide-types" *)
   else KLong.
 
-(* native_long_sign: 1 = compare as unsigned long, 0 = "the whole unsigned long", -1 = long *)
-Definition long_sign (c : crange) : Z :=
+(* native_long_sign: 1 = compare as unsigned long, -1 = long *)
+Definition long_sign (w : bool) (c : crange) : Z :=
   let '(l, r, els) := c in
-  if is_val l && (0 <=? edge_val l) && (edge_val l <=? two31m1) && is_max r then 1
-  else if is_val l && (0 <=? edge_val l) && is_val r && (two31m1 <? edge_val r) && (edge_val r <=? two32m1) then
-    (match els with
-     | [] => if (edge_val l =? 0) && (edge_val r =? two32m1) then 0 else 1
-     | _ => 1
-     end)
+  if is_val l && (0 <=? edge_val l) && (edge_val l <=? two31m1) && is_max r && negb w then 1
+  else if is_val l && (0 <=? edge_val l) && is_val r && (two31m1 <? edge_val r) && (edge_val r <=? two32m1) then 1
   else -1.
 
 (* one interval's comparison text *)
@@ -168,6 +170,7 @@ Definition emit1 (nstart nstop : option Z) (p : ipair) : option cmp :=
   else if edge_val (fst p) =? edge_val (snd p) then Some (CEq (edge_val (snd p)))
   else Some (CBetween (edge_val (fst p)) (edge_val (snd p))).
 
+Definition nonnil {A} (l : list A) : bool := match l with [] => false | _ => true end.
 Definition opt_list {A} (o : option A) : list A := match o with Some a => [a] | None => [] end.
 
 (* the whole text: a disjunction; [] = empty text *)
@@ -183,30 +186,51 @@ Definition eval (z : Z) (txt : list cmp) : bool := existsb (eval_cmp z) txt.
 Definition int64 (z : Z) : bool := (- two63 <=? z) && (z <? two63).
 Definition uint64 (z : Z) : bool := (0 <=? z) && (z <? two64).
 
+(* emit_value_determination_code, FL_NOTFIT: "In some cases we can explore our knowledge of
+   underlying INTEGER_t->buf format": for a single interval (0..MAX) or (MIN..-1) the value
+   compared is the sign of the number, value = (buf[0] & 0x80) ? -1 : 1 *)
+Definition sign_shortcut (c : crange) : bool :=
+  let '(l, r, els) := c in
+  match els with
+  | [] => (is_val l && (edge_val l =? 0) && is_max r) || (is_min l && is_val r && (edge_val r =? -1))
+  | _ => false
+  end.
+Definition sign_of (z : Z) : Z := if z <? 0 then -1 else 1.
+
+Definition is_kwide (k : ikind) : bool := match k with KWide => true | _ => false end.
+
+(* the value is held in an INTEGER_t and has to be read with asn_INTEGER2long / asn_INTEGER2ulong *)
+Definition needs_read (w : bool) (c : crange) : bool :=
+  let '(l, r, els) := c in is_kwide (fits_long w l r) && negb (sign_shortcut c).
+
+(* that read succeeds *)
+Definition int_readable (w : bool) (ps : parts) (z : Z) : bool :=
+  match crange_of ps with
+  | None => true
+  | Some c => if needs_read w c then (if 0 <=? long_sign w c then uint64 z else int64 z) else true
+  end.
+
 (* the generated checker of an INTEGER type with value constraint ps.  "Nothing to
    check" (the function returns the base type's checker, asn_generic_no_constraint)
    is ROk. *)
-Definition int_check (ps : parts) (z : Z) : res :=
+Definition int_check (w : bool) (ps : parts) (z : Z) : res :=
   match crange_of ps with
   | None => ROk
   | Some c =>
       let '(l, r, els) := c in
-      if is_min l && is_max r then ROk                       (* r_value dropped *)
+      if is_min l && is_max r && negb (nonnil els) then ROk  (* r_value dropped: the single interval MIN..MAX *)
       else
-        let sg := long_sign c in
-        if sg =? 0 then ROk                                   (* ulong_optimize: return 0 *)
+        let sg := long_sign w c in
+        let readable :=
+          if needs_read w c then (if 0 <=? sg then uint64 z else int64 z)   (* asn_INTEGER2ulong / asn_INTEGER2long *)
+          else true in
+        if negb readable then RFail WTooLarge
         else
-          let readable :=
-            match fits_long l r with
-            | KWide => if 0 <=? sg then uint64 z else int64 z   (* asn_INTEGER2ulong / asn_INTEGER2long *)
-            | _ => true
-            end in
-          if negb readable then RFail WTooLarge
-          else
-            match emit (if 0 <? sg then Some 0 else None) None c with
-            | [] => ROk                                         (* no applicable constraints whatsoever *)
-            | txt => if eval z txt then ROk else RFail WConstraint
-            end
+          let value := if is_kwide (fits_long w l r) && sign_shortcut c then sign_of z else z in
+          match emit (if 0 <? sg then Some 0 else None) None c with
+          | [] => ROk                                         (* no applicable constraints whatsoever *)
+          | txt => if eval value txt then ROk else RFail WConstraint
+          end
   end.
 
 (* the generated SIZE test (size_t size; natural_start 0); "nothing to check" is ROk *)
@@ -215,7 +239,7 @@ Definition size_check (sz : parts) (n : Z) : res :=
   | None => ROk
   | Some c =>
       let '(l, r, els) := c in
-      if (edge_val l =? 0) && is_max r then ROk               (* r_size dropped *)
+      if (edge_val l =? 0) && is_max r && negb (nonnil els) then ROk   (* r_size dropped: the single interval 0..MAX *)
       else
         match emit (Some 0) None c with
         | [] => ROk
@@ -224,17 +248,6 @@ Definition size_check (sz : parts) (n : Z) : res :=
   end.
 
 (* ------------------------------------------------------------------ Model: walkers *)
-Definition strip_opt (t : cty) : cty := match t with COpt t' => t' | _ => t end.
-Definition nonnil {A} (l : list A) : bool := match l with [] => false | _ => true end.
-(* expr->constraints != NULL at the member: a memb_<name>_constraint_<n> function exists *)
-Definition has_own (t : cty) : bool :=
-  match strip_opt t with
-  | CInt ps exc => nonnil ps
-  | COct sz => nonnil sz
-  | CSeqOf sz _ => nonnil sz
-  | _ => false
-  end.
-
 (* SEQUENCE_constraint *)
 Definition is_copt (t : cty) : bool := match t with COpt _ => true | _ => false end.
 Definition walk_members (f : cty -> val -> res) : list cty -> list val -> res :=
@@ -246,9 +259,7 @@ Definition walk_members (f : cty -> val -> res) : list cty -> list val -> res :=
         | VNone => if is_copt m then go ms' vs'                (* absent OPTIONAL: continue *)
                    else RFail WAbsent                          (* mandatory element absent *)
         | _ =>
-            if has_own m then
-              match f m v with ROk => go ms' vs' | e => e end
-            else f m v                                         (* `return elm->type->...general_constraints(...)` *)
+            match f m v with ROk => go ms' vs' | e => e end     (* the member's own checker, else its type's; first failure wins *)
         end
     | _, _ => RFail WShape
     end.
@@ -264,30 +275,30 @@ Definition walk_elems (f : val -> res) : list val -> res :=
 (* [slot] = true: the checker attached to a member / alternative / element slot
    (memb_*_constraint_N if a constraint is written there, else the descriptor's);
    false: the descriptor's own checker (top level, or behind a type reference). *)
-Fixpoint chk (t : cty) (slot : bool) (v : val) {struct t} : res :=
+Fixpoint chk (w : bool) (t : cty) (slot : bool) (v : val) {struct t} : res :=
   match t, v with
   | CBool, VBool _ => ROk
   | CNull, VNull => ROk
-  | CInt ps _, VInt z => int_check ps z
+  | CInt ps _, VInt z => int_check w ps z
   | COct sz, VOct bs => size_check sz (zlength bs)
-  | CSeq ms, VSeq vs => walk_members (fun m x => chk m true x) ms vs
+  | CSeq ms, VSeq vs => walk_members (fun m x => chk w m true x) ms vs
   | CSeqOf sz e, VList vs =>
       if slot then
         match size_check sz (zlength vs) with
-        | ROk => walk_elems (chk e true) vs
+        | ROk => walk_elems (chk w e true) vs
         | f => f
         end
-      else walk_elems (chk e true) vs
-  | CChoice alts, VChoice i v' => pick (fun a x => chk a true x) (RFail WNoAlt) v' alts i
-  | CRef g t', _ => chk t' g v
+      else walk_elems (chk w e true) vs
+  | CChoice alts, VChoice i v' => pick (fun a x => chk w a true x) (RFail WNoAlt) v' alts i
+  | CRef g t', _ => chk w t' g v
   | COpt _, VNone => ROk
-  | COpt t', VSome v' => chk t' slot v'
+  | COpt t', VSome v' => chk w t' slot v'
   | _, _ => RFail WShape
   end.
 
 (* asn_check_constraints(&asn_DEF_T, ...) *)
-Definition check (t : cty) (v : val) : res := chk t false v.
-Definition check_ok (t : cty) (v : val) : bool := match check t v with ROk => true | _ => false end.
+Definition check (w : bool) (t : cty) (v : val) : res := chk w t false v.
+Definition check_ok (w : bool) (t : cty) (v : val) : bool := match check w t v with ROk => true | _ => false end.
 
 (* ------------------------------------------------------------------ where Model = Spec is claimed *)
 Definition wfpb (p : ipair) : bool :=
@@ -297,67 +308,64 @@ Definition fin64 (p : ipair) : bool :=
 Definition has_text (ns : option Z) (p : ipair) : bool :=
   match emit1 ns None p with Some _ => true | None => false end.
 
-Definition int_safe (ps exc : parts) : bool :=
+(* everything but the "value too large" question *)
+Definition int_safe_core (w : bool) (ps exc : parts) : bool :=
   negb (nonnil exc) &&                                         (* EXCEPT is ignored by the range computation *)
   forallb wfpb ps &&
   match crange_of ps with
   | None => true
   | Some c =>
       let '(l, r, els) := c in
-      negb (is_min l && is_max r && nonnil els) &&             (* (MIN..a | b..MAX): dropped as if MIN..MAX *)
-      negb (long_sign c =? 0) &&                               (* (0..4294967295): unsigned long is 64 bit here *)
-      (match fits_long l r with KWide => forallb fin64 ps | _ => true end) &&   (* open range held in an INTEGER_t *)
-      forallb (has_text (if 0 <? long_sign c then Some 0 else None)) els
+      forallb (has_text (if 0 <? long_sign w c then Some 0 else None)) els
   end.
+(* a range read through asn_INTEGER2long has only finite parts inside 64 bits (so that a value
+   that cannot be read is outside the range anyway) *)
+Definition int_wide_ok (w : bool) (ps : parts) : bool :=
+  match crange_of ps with
+  | None => true
+  | Some c => if needs_read w c then forallb fin64 ps else true
+  end.
+Definition int_safe (w : bool) (ps exc : parts) : bool := int_safe_core w ps exc && int_wide_ok w ps.
 
 Definition size_safe (sz : parts) : bool :=
   forallb wfpb sz && forallb (fun p => is_val (fst p) && (0 <=? edge_val (fst p))) sz &&
   match crange_of sz with
   | None => true
-  | Some c => let '(l, r, els) := c in
-              negb ((edge_val l =? 0) && is_max r && nonnil els) && forallb (has_text (Some 0)) els
-  end.
-
-(* every member but the last carries a checker of its own *)
-Fixpoint own_but_last (ms : list cty) : bool :=
-  match ms with
-  | [] => true
-  | [_] => true
-  | m :: r => has_own m && own_but_last r
+  | Some c => let '(l, r, els) := c in forallb (has_text (Some 0)) els
   end.
 
 (* OPTIONAL occurs only as a direct member of a SEQUENCE, not behind a reference *)
 Fixpoint opt_free_head (t : cty) : bool :=
   match t with COpt _ => false | CRef _ t' => opt_free_head t' | _ => true end.
 
-Fixpoint safe (t : cty) (slot : bool) {struct t} : bool :=
+Fixpoint safe (w : bool) (t : cty) (slot : bool) {struct t} : bool :=
   match t with
   | CBool | CNull => true
-  | CInt ps exc => int_safe ps exc
+  | CInt ps exc => int_safe w ps exc
   | COct sz => size_safe sz
-  | CSeq ms => own_but_last ms && forallb (fun m => safe m true) ms
-  | CSeqOf sz e => size_safe sz && (slot || negb (nonnil sz)) && safe e true
-  | CChoice alts => forallb (fun a => safe a true) alts
-  | CRef g t' => opt_free_head t' && safe t' g
-  | COpt t' => safe t' slot
+  | CSeq ms => forallb (fun m => safe w m true) ms
+  | CSeqOf sz e => size_safe sz && (slot || negb (nonnil sz)) && safe w e true
+  | CChoice alts => forallb (fun a => safe w a true) alts
+  | CRef g t' => opt_free_head t' && safe w t' g
+  | COpt t' => safe w t' slot
   end.
 
 (* the value fits the C type asn1c chose (long / unsigned long); an INTEGER_t holds anything *)
-Definition int_repr (ps : parts) (z : Z) : bool :=
+Definition int_repr (w : bool) (ps : parts) (z : Z) : bool :=
   match crange_of ps with
-  | None => int64 z
+  | None => w || int64 z                     (* unconstrained: long, or INTEGER_t under -fwide-types *)
   | Some c => let '(l, r, els) := c in
-              match fits_long l r with KLong => int64 z | KULong => uint64 z | KWide => true end
+              match fits_long w l r with KLong => int64 z | KULong => uint64 z | KWide => true end
   end.
 
-Fixpoint repr (t : cty) (v : val) {struct t} : bool :=
+Fixpoint repr (w : bool) (t : cty) (v : val) {struct t} : bool :=
   match t, v with
-  | CInt ps _, VInt z => int_repr ps z
-  | CSeq ms, VSeq vs => all2 repr ms vs
-  | CSeqOf _ e, VList vs => forallb (repr e) vs
-  | CChoice alts, VChoice i v' => pick repr true v' alts i
-  | CRef _ t', _ => repr t' v
-  | COpt t', VSome v' => repr t' v'
+  | CInt ps _, VInt z => int_repr w ps z
+  | CSeq ms, VSeq vs => all2 (repr w) ms vs
+  | CSeqOf _ e, VList vs => forallb (repr w e) vs
+  | CChoice alts, VChoice i v' => pick (repr w) true v' alts i
+  | CRef _ t', _ => repr w t' v
+  | COpt t', VSome v' => repr w t' v'
   | _, _ => true
   end.
 
@@ -401,3 +409,21 @@ Definition ctfail_clamp (maxlen vlen : Z) : option (Z * Z) :=
   else let m := maxlen - 1 in
        let l := if broken_len <? m then broken_len else m in
        Some (l, l).
+
+(* what ends up in the caller's buffer.  The buffer is a function from index to byte (no
+   length: a store outside [0, maxlen) is visible as a changed value there).
+   vsnprintf(errbuf, maxlen, fmt, ...) is taken by its contract: for maxlen >= 1 it stores the
+   first n = min(len, maxlen-1) bytes of the message, a NUL at n, nothing else, and returns len. *)
+Definition buffer := Z -> Z.
+Definition msg_at (msg : list Z) (i : Z) : Z := nth (Z.to_nat i) msg 0.
+Definition write (f : buffer) (i b : Z) : buffer := fun j => if j =? i then b else f j.
+Definition vsnprintf_into (f : buffer) (maxlen : Z) (msg : list Z) : buffer :=
+  let n := Z.min (zlength msg) (maxlen - 1) in
+  fun j => if (0 <=? j) && (j <? n) then msg_at msg j else if j =? n then 0 else f j.
+(* asn_check_constraints with errbuf of *errlen = maxlen bytes, on a failing value whose message
+   is msg: the buffer afterwards and *errlen (None: left alone) *)
+Definition ctfail (f : buffer) (maxlen : Z) (msg : list Z) : buffer * option Z :=
+  match ctfail_clamp maxlen (zlength msg) with
+  | None => (f, None)
+  | Some (el, nul) => (write (vsnprintf_into f maxlen msg) nul 0, Some el)
+  end.
